@@ -800,6 +800,15 @@ func rulePositional(c *chk.Ctx) {
 		if !ok {
 			return
 		}
+		// cargs[p] = st.Field(p-1): the same pairing, counted from the argument's side
+		if call, isCall := st.Val.(*ssa.Call); isCall && ir.IsCallTo(&call.Call, "(reflect.Value).Field") {
+			if sub, isSub := call.Call.Args[1].(*ssa.BinOp); isSub && sub.Op == token.SUB && sub.X == ia.Index {
+				if k, isK := ir.ConstInt(sub.Y); isK && k == 1 {
+					okIdx = true
+					return
+				}
+			}
+		}
 		bo, ok := ia.Index.(*ssa.BinOp)
 		if !ok || bo.Op != token.ADD {
 			return
